@@ -272,14 +272,27 @@ def stonesValid (d : Db) (a b : Int) (sel : Option Nat) : Prop :=
 instance (d : Db) (a b : Int) (sel : Option Nat) : Decidable (stonesValid d a b sel) := by
   unfold stonesValid; infer_instance
 
+/-- Since the F35 fix (`Head.Delete` skips a series the requested range misses) every logged head
+    stone is valid. -/
+theorem stonesValid_holds (d : Db) (a b : Int) (sel : Option Nat) : stonesValid d a b sel := by
+  intro _ p hp
+  rw [delStones_eq, List.mem_filterMap] at hp
+  obtain ⟨u, _, hu⟩ := hp
+  exact stoneOf_valid u p hu
+
 theorem mem_delStones {d : Db} {a b : Int} {sel : Option Nat} {s : HSeries} (hs : s ∈ d.series)
-    (hh : hitSel sel s.idx = true) {f l : Smp} (hf : s.phys.head? = some f) (hl : s.phys.getLast? = some l) :
+    (hh : hitSel sel s.idx = true) {f l : Smp} (hf : s.phys.head? = some f) (hl : s.phys.getLast? = some l)
+    (hval : (clampInterval (clampInterval a b d.minT d.maxT).1 (clampInterval a b d.minT d.maxT).2 f.t l.t).1 ≤
+      (clampInterval (clampInterval a b d.minT d.maxT).1 (clampInterval a b d.minT d.maxT).2 f.t l.t).2) :
     (s.idx, (⟨(clampInterval (clampInterval a b d.minT d.maxT).1 (clampInterval a b d.minT d.maxT).2 f.t l.t).1,
               (clampInterval (clampInterval a b d.minT d.maxT).1 (clampInterval a b d.minT d.maxT).2 f.t l.t).2⟩ : Interval))
       ∈ delStones d a b sel := by
-  unfold delStones
-  rw [List.mem_filterMap]
-  exact ⟨s, hs, by simp only [hh, if_true, hf, hl]⟩
+  rw [delStones_eq, List.mem_filterMap]
+  refine ⟨s, hs, ?_⟩
+  unfold stoneOf
+  have : ¬ (clampInterval (clampInterval a b d.minT d.maxT).1 (clampInterval a b d.minT d.maxT).2 f.t l.t).1 >
+      (clampInterval (clampInterval a b d.minT d.maxT).1 (clampInterval a b d.minT d.maxT).2 f.t l.t).2 := by omega
+  simp only [hh, if_true, hf, hl, this, if_false]
 
 /-- A valid head stone has int64 endpoints and ends at or before the newest sample. -/
 theorem headStone_facts {d : Db} (hI : Inv d) (hT : TInv d) {s : HSeries} (hs : s ∈ d.series)
@@ -298,18 +311,18 @@ theorem headStone_facts {d : Db} (hI : Inv d) (hT : TInv d) {s : HSeries} (hs : 
   refine ⟨⟨?_, ?_⟩, ⟨?_, ?_⟩⟩ <;> (split at hv <;> split at hv <;> (try split) <;> (try split) <;> omega)
 
 theorem delete_tinv_and_preserves {d : Db} {r : Ref} (hI : Inv d) (hS : Sim d r) (hT : TInv d)
-    (a b : Int) (sel : Option Nat) (hv : stonesValid d a b sel) :
+    (a b : Int) (sel : Option Nat) :
     Inv (d.delete a b sel) ∧ Sim (d.delete a b sel) (r.del a b sel) ∧ TInv (d.delete a b sel) := by
   -- facts about each head stone
   have hhead : ∀ s ∈ d.series, hitSel sel s.idx = true → ∀ f l, s.phys.head? = some f → s.phys.getLast? = some l →
       (d.minT ≤ b ∧ a ≤ d.maxT) →
+      (clampInterval (clampInterval a b d.minT d.maxT).1 (clampInterval a b d.minT d.maxT).2 f.t l.t).1 ≤
+        (clampInterval (clampInterval a b d.minT d.maxT).1 (clampInterval a b d.minT d.maxT).2 f.t l.t).2 →
       TombsOk (addTomb s.tombs ⟨(clampInterval (clampInterval a b d.minT d.maxT).1 (clampInterval a b d.minT d.maxT).2 f.t l.t).1,
                            (clampInterval (clampInterval a b d.minT d.maxT).1 (clampInterval a b d.minT d.maxT).2 f.t l.t).2⟩) ∧
       AddCoversAt s.tombs ⟨(clampInterval (clampInterval a b d.minT d.maxT).1 (clampInterval a b d.minT d.maxT).2 f.t l.t).1,
                            (clampInterval (clampInterval a b d.minT d.maxT).1 (clampInterval a b d.minT d.maxT).2 f.t l.t).2⟩ := by
-    intro s hs hh f l hf hl hov
-    have hval := hv hov _ (mem_delStones (a := a) (b := b) hs hh hf hl)
-    simp only at hval
+    intro s hs hh f l hf hl hov hval
     have hb := headStone_facts hI hT hs hf hl a b hval
     have := addTomb_canon (hT.headOk s hs).1 (hT.headOk s hs).2 (iv := ⟨_, _⟩) hb hval
     exact ⟨⟨this.1, this.2.1⟩, this.2.2⟩
@@ -335,28 +348,15 @@ theorem delete_tinv_and_preserves {d : Db} {r : Ref} (hI : Inv d) (hS : Sim d r)
     have := addTomb_canon (hT.blkOk blk hb s hs).1 (hT.blkOk blk hb s hs).2 (iv := ⟨_, _⟩) hb64 hval
     exact ⟨⟨this.1, this.2.1⟩, this.2.2⟩
   have hP := delete_preserves_at hI hS a b sel
-    (fun s hs hh f l hf hl hov => (hhead s hs hh f l hf hl hov).2)
+    (fun s hs hh f l hf hl hov hval => (hhead s hs hh f l hf hl hov hval).2)
     (fun blk hb s hs hh f l hf hl hany => (hblk blk hb s hs hh f l hf hl hany).2)
   refine ⟨hP.1, hP.2, ?_⟩
   obtain ⟨_, _, _, _, e5⟩ := delete_scalars d a b sel
   -- the stone of a head series
-  have hstone : ∀ s ∈ d.series, (delStones d a b sel).find? (fun p => p.1 = s.idx) =
-      (if hitSel sel s.idx then
-        match s.phys.head?, s.phys.getLast? with
-        | some f, some l =>
-          some (s.idx, ⟨(clampInterval (clampInterval a b d.minT d.maxT).1 (clampInterval a b d.minT d.maxT).2 f.t l.t).1,
-                        (clampInterval (clampInterval a b d.minT d.maxT).1 (clampInterval a b d.minT d.maxT).2 f.t l.t).2⟩)
-        | _, _ => none
-      else none) := by
+  have hstone : ∀ s ∈ d.series, (delStones d a b sel).find? (fun p => p.1 = s.idx) = stoneOf d a b sel s := by
     intro s hs
-    unfold delStones
-    apply find_filterMap_key hI.idxNodup _ _ hs
-    intro u p hp
-    split at hp
-    · split at hp
-      · simp only [Option.some.injEq] at hp; rw [← hp]
-      · simp at hp
-    · simp at hp
+    rw [delStones_eq]
+    exact find_filterMap_key hI.idxNodup _ (fun u p hp => stoneOf_key u p hp) hs
   refine ⟨?_, ?_, ?_, ?_, ?_⟩
   · rw [delete_series]
     intro s' hs' x hx
@@ -383,6 +383,7 @@ theorem delete_tinv_and_preserves {d : Db} {r : Ref} (hI : Inv d) (hS : Sim d r)
     split
     · rename_i hov
       rw [hstone s hs]
+      unfold stoneOf
       by_cases hh : hitSel sel s.idx = true
       · simp only [hh, if_true]
         cases hf : s.phys.head? with
@@ -390,7 +391,13 @@ theorem delete_tinv_and_preserves {d : Db} {r : Ref} (hI : Inv d) (hS : Sim d r)
         | some f =>
           cases hl : s.phys.getLast? with
           | none => exact hT.headOk s hs
-          | some l => exact (hhead s hs hh f l hf hl hov).1
+          | some l =>
+            simp only
+            by_cases hinv : (clampInterval (clampInterval a b d.minT d.maxT).1 (clampInterval a b d.minT d.maxT).2 f.t l.t).1 >
+                (clampInterval (clampInterval a b d.minT d.maxT).1 (clampInterval a b d.minT d.maxT).2 f.t l.t).2
+            · simp only [hinv, if_true]; exact hT.headOk s hs
+            · simp only [hinv, if_false]
+              exact (hhead s hs hh f l hf hl hov (by omega)).1
       · simp only [hh, Bool.false_eq_true, if_false]; exact hT.headOk s hs
     · exact hT.headOk s hs
   · rw [delete_blocks]
